@@ -27,11 +27,14 @@ TRUSTED = [
 ASSUME = [
     "encoding/json and encoding/base64 behave as the Go standard library does (json_ok, base64_ok; validated per run)",
     "a crash while writing leaves a prefix of the new content; the process (and its loader) is gone afterwards",
-    "a change of the file by ANOTHER writer is guaranteed visible to a surviving loader only when it carries a modification time "
-    "other than the one the loader cached at (theorems: strictly later than every earlier time); on an equal tick the loader "
-    "keeps returning the session it stored and read back itself (C12_foreign_equal_tick_unseen) - the direct oracle skips the "
-    "surviving loader's loads in that window, the model comparison does not",
-    "host names are valid UTF-8 (encoding/json replaces invalid bytes by U+FFFD; outside the theorems)",
+    "a change of the file by ANOTHER writer is visible to a surviving loader exactly when it leaves the file carrying a "
+    "modification time DIFFERENT (later or earlier) from the one the loader cached at - the code's test is Equal "
+    "(C12_history_refines_exact); when it carries exactly that time the loader keeps returning the session it stored and read "
+    "back itself (C12_foreign_equal_tick_unseen: the stated limit of a cache keyed on the modification time) - the direct oracle "
+    "does not judge the surviving loader's loads in that window, the model comparison does",
+    "the caller may overwrite any *Session it passed to Store or got from Load (op M): the fixed code shares no memory with it",
+    "the round-trip theorems need the host name to be valid UTF-8 (session_ok); for other host names the property text is "
+    "refuted (C12_hostname_not_utf8_refuted) and the check reports the known finding store-load:hostname-invalid-utf8",
     "'resumes without a new key exchange' is shown only up to NewMTProto's decision (encrypted iff a session was found, "
     "fields taken from it); the live part needs the reference server (C16 work package)",
 ]
@@ -113,21 +116,46 @@ def write_histories(path, hists):
                 f.write("\t".join(l) + "\n")
 
 
-def direct_oracle(h, kind, obs):
-    """The property itself on the implementation's observations, no model involved.
-    Returns None or (op index, expected, got, what)."""
-    st = None          # None = absent | "?" = unknown (foreign write) | (sessfields, contentlen, n)
-    maxt = -1          # latest modification time handed out so far
-    unseen = False     # another writer changed the file on a tick that is not strictly later than everything
-                       # before: the surviving loader's mtime-keyed cache may legitimately not see it
-                       # (C12_foreign_equal_tick_unseen); a new loader must (checked after F / by N)
+KNOWN_UTF8 = "store-load:hostname-invalid-utf8"
 
-    def valid_host(hx_):
-        try:
-            hexs(hx_).decode("utf-8")
-            return True
-        except UnicodeDecodeError:
-            return False
+
+def coerce_go(b):
+    """what encoding/json makes of a string: each byte at which no valid UTF-8 sequence starts becomes U+FFFD
+    (third, independent implementation; harness coerceGo and the model's coerce_utf8 are compared per run)"""
+    out = bytearray()
+    i = 0
+    while i < len(b):
+        c = b[i]
+        n = 1 if c < 0x80 else 2 if 0xC2 <= c <= 0xDF else 3 if 0xE0 <= c <= 0xEF else 4 if 0xF0 <= c <= 0xF4 else 0
+        chunk = b[i:i + n]
+        ok = n > 0 and len(chunk) == n
+        if ok:
+            try:
+                chunk.decode("utf-8")
+            except UnicodeDecodeError:
+                ok = False
+        if ok:
+            out += chunk
+            i += n
+        else:
+            out += b"\xef\xbf\xbd"
+            i += 1
+    return bytes(out)
+
+
+def direct_oracle(h, kind, obs, known=None):
+    """The property itself on the implementation's observations, no model involved.
+    Returns None or (op index, expected, got, what).  [known]: list that receives (op index, expected, got)
+    for the one deviation listed in KNOWN_FINDINGS.txt - a host name that is not valid UTF-8 comes back with
+    U+FFFD in place of the offending bytes and NOTHING else differs; anything else about such a session
+    (other fields damaged, an error, a panic) is a violation like for any other session."""
+    st = None          # None = absent | "?" = unknown (foreign write) | (sessfields, contentlen, n)
+    file_mt = None     # modification time the file carries
+    cached_at = None   # time the living loader cached at (None: nothing cached)
+    unseen = False     # another writer changed the file and left it carrying exactly the time the living loader
+                       # cached at: the stated limit of an mtime-keyed cache (C12_foreign_equal_tick_unseen) - the
+                       # loader's loads are not judged here (the model comparison still is); a new loader is
+    coerced = {}       # raw host (hex) -> what encoding/json makes of it (hex), from the harness's V lines
 
     def expect_load():
         if st is None:
@@ -137,55 +165,76 @@ def direct_oracle(h, kind, obs):
         sess, ln, n = st
         return ["err"] if n < ln else ["ok"] + list(sess)
 
+    def same_but_host(e, g):
+        """g equals e except that the host field (last) is the json-coerced form of e's invalid host"""
+        if len(e) != len(g) or e[:-1] != g[:-1]:
+            return False
+        raw = hexs(e[-1])
+        co = coerce_go(raw)
+        return co != raw and hexs(g[-1]) == co and coerced.get(e[-1], g[-1]) == g[-1]
+
+    def foreign_time(t):
+        nonlocal file_mt, unseen
+        file_mt = t
+        unseen = cached_at is not None and t == cached_at
+
     for i, o in enumerate(h.ops):
         got = obs.get(str(i))
         if got is None:
             return (i, "an observation", "none", "harness produced no observation")
-        newer = True
-        if o[0] in TIMED:
-            newer = int(o[-1]) > maxt
-            maxt = max(maxt, int(o[-1]))
-        if o[0] in ("S", "F", "C", "X", "NS"):
-            unseen = False     # own store drops the cache; the others start a new loader
+        if o[0] in ("S", "G"):
+            v = obs.get(str(i) + ".v")
+            if v and len(v) >= 3:
+                coerced[o[4]] = v[2]
         if o[0] == "TR":
-            if st not in (None, "?"):
-                st = (st[0], st[1], min(int(o[1]), st[2]))
-                if not newer:
-                    unseen = True
+            if st is not None:
+                if st != "?":
+                    st = (st[0], st[1], min(int(o[1]), st[2]))
+                foreign_time(int(o[2]))
         elif o[0] == "G":
             if kind == "D":
                 if got[:2] != ["G", "ok"]:
                     return (i, "G ok", " ".join(got[:2]), "Store by a second loader fails although the directory of the path exists")
-                st = ((o[1], o[2], o[3], o[4]), len(hexs(got[2])), len(hexs(got[2]))) if valid_host(o[4]) else "?"
-                if not newer:
-                    unseen = True
+                st = ((o[1], o[2], o[3], o[4]), len(hexs(got[2])), len(hexs(got[2])))
+                foreign_time(int(o[5]))
             elif got[:2] != ["G", "err"]:
                 return (i, "G err", " ".join(got[:2]), "Store into a missing directory does not report an error")
         elif o[0] == "S":
-            valid = True
-            try:
-                hexs(o[4]).decode("utf-8")
-            except UnicodeDecodeError:
-                valid = False
             if kind == "D":
                 if got[:2] != ["S", "ok"]:
                     return (i, "S ok", " ".join(got[:2]), "Store fails although the directory of the path exists")
-                st = ((o[1], o[2], o[3], o[4]), len(hexs(got[2])), len(hexs(got[2]))) if valid else "?"
+                st = ((o[1], o[2], o[3], o[4]), len(hexs(got[2])), len(hexs(got[2])))
+                file_mt, cached_at, unseen = int(o[5]), None, False      # own store drops the cache
             else:
                 if got[:2] != ["S", "err"]:
                     return (i, "S err", " ".join(got[:2]), "Store into a missing directory does not report an error")
         elif o[0] == "L":
-            e = None if unseen else expect_load()
+            if unseen:
+                continue
+            e = expect_load()
             if e is not None and got[1:] != e:
-                what = {"nf": "missing file not reported as not-found", "err": "torn file not reported as an error"}.get(
-                    e[0], "Load does not return the last stored session")
-                return (i, "L " + " ".join(e), " ".join(got), what)
+                if e[0] == "ok" and same_but_host(e, got[1:]):
+                    if known is not None:
+                        known.append((i, "L " + " ".join(e), " ".join(got)))
+                else:
+                    what = {"nf": "missing file not reported as not-found", "err": "torn file not reported as an error"}.get(
+                        e[0], "Load does not return the last stored session")
+                    return (i, "L " + " ".join(e), " ".join(got), what)
+            if got[:2] == ["L", "ok"]:
+                cached_at = file_mt
+        elif o[0] == "F":
+            cached_at, unseen = None, False
         elif o[0] == "C":
-            if st not in (None, "?"):
-                st = (st[0], st[1], min(int(o[1]), st[2]))
+            if st is not None:
+                if st != "?":
+                    st = (st[0], st[1], min(int(o[1]), st[2]))
+                file_mt = int(o[2])
+            cached_at, unseen = None, False
         elif o[0] == "X":
             if kind == "D":
                 st = "?"
+                file_mt = int(o[2])
+            cached_at, unseen = None, False
         elif o[0] in ("N", "NS"):
             e = expect_load()
             npart = got
@@ -201,20 +250,22 @@ def direct_oracle(h, kind, obs):
                 else:
                     en = ["N", "err"]
                 if npart != en:
-                    return (i, " ".join(en), " ".join(npart),
-                            "NewMTProto does not resume from the stored session / does not start fresh on a missing one")
+                    if e[0] == "ok" and same_but_host(en, npart):
+                        if known is not None:
+                            known.append((i, " ".join(en), " ".join(npart)))
+                    else:
+                        return (i, " ".join(en), " ".join(npart),
+                                "NewMTProto does not resume from the stored session / does not start fresh on a missing one")
             if o[0] == "NS":
                 if npart[:2] == ["N", "ok"]:
                     if kind == "D":
                         if spart[:2] != ["S", "ok"]:
                             return (i, "S ok", " ".join(spart[:2]), "SaveSession fails although the directory exists")
                         st = (tuple(npart[3:7]), len(hexs(spart[2])), len(hexs(spart[2])))
-                        try:
-                            hexs(npart[6]).decode("utf-8")
-                        except UnicodeDecodeError:
-                            st = "?"
+                        file_mt = int(o[2])
                     elif spart[:2] != ["S", "err"]:
                         return (i, "S err", " ".join(spart[:2]), "SaveSession into a missing directory does not report an error")
+                cached_at, unseen = None, False
     return None
 
 
@@ -248,7 +299,7 @@ def store_ok(obs):
 
 
 def corr_mismatch(h, impl, model):
-    keys = ["dir"] + [k for i in range(len(h.ops)) for k in ((str(i), str(i) + ".v") if h.ops[i][0] == "S" else (str(i),))]
+    keys = ["dir"] + [k for i in range(len(h.ops)) for k in ((str(i), str(i) + ".v") if h.ops[i][0] in ("S", "G") else (str(i),))]
     for k in keys:
         a, b = impl.get(k), model.get(k)
         if a != b:
@@ -273,6 +324,8 @@ def pretty_ops(h):
         elif o[0] == "G":
             out.append("another loader: Store(key=%d bytes, hash=%d bytes, salt=0x%s, host=%r) mtime=%s; first loader lives on" % (
                 len(hexs(o[1])), len(hexs(o[2])), o[3], show(o[4]), o[5]))
+        elif o[0] == "M":
+            out.append("caller overwrites every *Session it passed to Store / got from Load so far")
         elif o[0] == "X":
             out.append("foreign write of %d bytes, mtime=%s, new loader" % (len(hexs(o[1])), o[2]))
         elif o[0] == "N":
@@ -396,13 +449,27 @@ def run(ctx):
     direct_bad = 0
     samples = []
     min_time = 0.0
+    known_cases = 0
     for h in hists:
         io = impl.get(h.id, {})
         mo = model.get(h.id, {})
         evals += len(h.ops)
         s = sym[h.id]
         s.kind = h.kind
-        bad = direct_oracle(h, h.kind, io)
+        known = []
+        bad = direct_oracle(h, h.kind, io, known)
+        if known:
+            known_cases += len(known)
+            ki, kexp, kgot = known[0]
+            stored = [None] + kexp.split(" ")[-4:]
+            C.violation(ctx, KNOWN_UTF8,
+                        "host name %r (not valid UTF-8) stored, read back as %r: expected %s, got %s" % (
+                            show(stored[4]), show(kgot.split(" ")[-1]), brief(kexp), brief(kgot)),
+                        {"history": ["\t".join(l) for l in s.lines()], "dir_kind": h.kind, "failing_op": ki,
+                         "expected": kexp, "got": kgot, "ops": pretty_ops(s),
+                         "session": {"key_hex": stored[1], "hash_hex": stored[2], "salt_u64_hex": stored[3], "host_hex": stored[4]},
+                         "oracle": "direct (property text: server address - any byte values - read back identically)",
+                         "theorem": "C12_hostname_not_utf8_refuted / C12_codec_any_host"})
         if bad is not None:
             direct_bad += 1
             if len(ctx.violations) >= 5:
@@ -465,6 +532,12 @@ def run(ctx):
                  "among histories with a successful store followed by a load or client start on which model, implementation and the reference store agree",
          "samples": samples, "input_distribution": stats, "disagreements_checked": disagreements,
          "direct_oracle_failures": direct_bad, "histories": len(hists),
+         "known_findings": {KNOWN_UTF8: {
+             "observations": known_cases,
+             "what": "a host name that is not valid UTF-8 is read back with U+FFFD in place of the offending bytes (encoding/json "
+                     "coerces strings); everything else about such sessions (key, hash, salt, error class, no panic, torn files, "
+                     "resume) is checked like for any other session; Coq: C12_hostname_not_utf8_refuted (witness), "
+                     "C12_codec_any_host (what comes back), session_ok = the guard under which the round trip is proved"}},
          "projection": "per Store ok/err and the bytes of the file; per Load the class ok/not-found/other error/panic and on ok key, hash, salt, host; "
                        "per NewMTProto error or (encrypted, key, hash, salt, address); filepath.Dir of the path; utf8 validity of the host. "
                        "Error texts, timestamps, pointers not compared"})
@@ -492,7 +565,10 @@ def replay(ctx, path):
         io = impl.get(h.id, {})
         for i, o in enumerate(pretty_ops(h)):
             print("  %2d %-70s -> %s" % (i, o[:70], brief(io.get(str(i), []))))
-        bad = direct_oracle(h, h.kind, io)
+        known = []
+        bad = direct_oracle(h, h.kind, io, known)
+        for (ki, kexp, kgot) in known:
+            print("op %d: known finding %s: expected %s, got %s" % (ki, KNOWN_UTF8, brief(kexp), brief(kgot)))
         if bad is not None:
             print("op %d: expected %s, got %s (%s)" % (bad[0], brief(bad[1]), brief(bad[2]), bad[3]))
             print("VIOLATION property=C12 replay=%s" % path)
